@@ -297,6 +297,12 @@ def job_expr(args):
     signal.alarm(120)
     try:
         for _ in range(50):
+            if rng.random() < 0.15:
+                # a number as the whole condition / guard: non-zero (also negative, fractional) is true
+                e = gen_num(rng, rng.randint(0, depth))
+                if e[0] in ("num", "neglit"):
+                    continue
+                break
             e = gen_bool(rng, depth)
             if e[0] in ("path", "bool"):
                 continue
